@@ -96,9 +96,15 @@ def main():
             f = facts(s)
             if f is None:
                 continue
-            out = normalize_smiles(s)
-            fo = facts(out)
-            recs.append({"smiles": s, "out": out, "idem": normalize_smiles(out) == out,
+            # an exception of the function under test is an observation, not a harness failure
+            try:
+                out = normalize_smiles(s)
+                idem = normalize_smiles(out) == out
+                raised = ""
+            except Exception as ex:
+                out, idem, raised = "RAISED %s #%d" % (type(ex).__name__, len(recs)), False, repr(ex)[:200]
+            fo = facts(out) if not raised else None
+            recs.append({"smiles": s, "out": out, "idem": idem, "raised": raised,
                          "l": [intern(x) for x in f["l"]], "r": [intern(x) for x in f["r"]],
                          "out_same_molecules": fo is not None and fo["l"] == f["l"] and fo["r"] == f["r"]})
         add({"ev": "family", "fam": k, "members": recs})
